@@ -279,7 +279,7 @@ inductive Flow where
   | normal (env : Env)
   | brk (env : Env)
   | cont (env : Env)
-  | ret (v : Val)
+  | ret (v : Val) (env : Env)            -- the value and the environment at the `return` (the final state of `self`)
   | raise (cls : String) (env : Env)     -- the environment when the exception left the statement (handlers see it)
   | stuck (why : String)
 deriving Repr, Inhabited
@@ -299,7 +299,7 @@ def forLoop (body : Env → Val → Flow) (orelse : Env → Flow) : List Val →
     | .normal env' => forLoop body orelse vs env'
     | .cont env' => forLoop body orelse vs env'
     | .brk env' => .normal env'
-    | .ret r => .ret r
+    | .ret r e => .ret r e
     | .raise c e => .raise c e
     | .stuck w => .stuck w
 
@@ -351,10 +351,10 @@ def evalStmt (strip : String → String) (ext : Ext) : Nat → Env → Stmt → 
       | .ok _ => .stuck "iteration over a non-list"
       | .raise c => .raise c env
       | .stuck w => .stuck w
-    | .ret none => .ret .none
+    | .ret none => .ret .none env
     | .ret (some e) =>
       match evalExpr strip ext fuel env e with
-      | .ok v => .ret v
+      | .ok v => .ret v env
       | .raise c => .raise c env
       | .stuck w => .stuck w
     | .raise cls => .raise cls env
@@ -386,10 +386,23 @@ def run (strip : String → String) (ext : Ext) (f : FunDef) (args : List Val) :
   if f.params.length != args.length then .stuck "arity" else
   match evalBlock strip ext defaultFuel (f.params.zip args).reverse f.body with
   | .normal _ => .value .none          -- falling off the end returns None
-  | .ret v => .value v
+  | .ret v _ => .value v
   | .raise c _ => .raised c
   | .brk _ => .stuck "break outside a loop"
   | .cont _ => .stuck "continue outside a loop"
   | .stuck w => .stuck w
+
+/-- A method call observed together with the final state of its first parameter (`self`): what the method returned
+    or raised, and the object `self` is bound to when it ends. -/
+def runMethod (strip : String → String) (ext : Ext) (f : FunDef) (args : List Val) : Result × Option Val :=
+  if f.params.length != args.length then (.stuck "arity", none) else
+  let self := f.params.headD ""
+  match evalBlock strip ext defaultFuel (f.params.zip args).reverse f.body with
+  | .normal env => (.value .none, lookup env self)
+  | .ret v env => (.value v, lookup env self)
+  | .raise c env => (.raised c, lookup env self)
+  | .brk _ => (.stuck "break outside a loop", none)
+  | .cont _ => (.stuck "continue outside a loop", none)
+  | .stuck w => (.stuck w, none)
 
 end MiniPy
